@@ -307,16 +307,25 @@ namespace bloch::compiler {
     Token Lexer::scanString() {
         // Strings are double-quoted and may span lines; we do not process escapes yet.
         size_t start = m_position;
+        // The opening quote has already been consumed: remember where the token starts, since
+        // the literal may span lines and the token must point at its first character.
+        int startLine = m_line;
+        int startColumn = m_column - 1;
         while (m_position < m_source.size() && peek() != '"') {
-            if (peek() == '\n')
+            if (peek() == '\n') {
+                (void)advance();
                 m_line++;
+                m_column = 1;
+                continue;
+            }
             (void)advance();
         }
 
         if (peek() == '"') {
             (void)advance();
-            return makeToken(TokenType::StringLiteral,
-                             std::string(m_source.substr(start - 1, m_position - start + 1)));
+            return Token{TokenType::StringLiteral,
+                         std::string(m_source.substr(start - 1, m_position - start + 1)), startLine,
+                         startColumn};
         }
 
         reportError("unterminated string literal");
@@ -327,12 +336,21 @@ namespace bloch::compiler {
     Token Lexer::scanChar() {
         // Char literals are simple: '\'' X '\'' with no escaping support for now.
         size_t start = m_position;
-        if (m_position < m_source.size())
+        int startLine = m_line;
+        int startColumn = m_column - 1;
+        if (m_position < m_source.size()) {
+            bool newline = peek() == '\n';
             (void)advance();
+            if (newline) {
+                m_line++;
+                m_column = 1;
+            }
+        }
 
         if (peek() == '\'') {
             (void)advance();
-            return makeToken(TokenType::CharLiteral, std::string(m_source.substr(start - 1, 3)));
+            return Token{TokenType::CharLiteral, std::string(m_source.substr(start - 1, 3)),
+                         startLine, startColumn};
         }
 
         reportError("unterminated char literal");
